@@ -58,7 +58,7 @@ func executeFlush(db *DB, flushAction memStoreFlushAction) error {
 	}
 
 	if walPath != "" {
-		err = os.Remove(walPath)
+		err = removeWalFilesUpTo(walPath)
 		if err != nil {
 			return err
 		}
@@ -82,6 +82,33 @@ func executeFlush(db *DB, flushAction memStoreFlushAction) error {
 	// add the newly created reader into the rotation
 	// note that this CAN block here waiting on a current compaction to finish
 	db.sstableManager.addReader(reader)
+
+	return nil
+}
+
+// removeWalFilesUpTo removes the given WAL file and every WAL file that precedes it. The WAL also rotates on its own when
+// a file grows beyond its size limit, those files belong to the memstore that was just flushed (all earlier memstores were
+// flushed before, flushes are strictly sequential). Leaving them behind would replay their stale content as the newest
+// data on the next Open. We remove in ascending order, so a crash in between never leaves an older file without its successors.
+func removeWalFilesUpTo(walPath string) error {
+	walDir := filepath.Dir(walPath)
+	lastName := filepath.Base(walPath)
+	// ReadDir returns the entries sorted by filename, the WAL file names are zero-padded numbers
+	entries, err := os.ReadDir(walDir)
+	if err != nil {
+		return err
+	}
+
+	for _, entry := range entries {
+		if entry.IsDir() || filepath.Ext(entry.Name()) != filepath.Ext(lastName) || entry.Name() > lastName {
+			continue
+		}
+
+		err = os.Remove(filepath.Join(walDir, entry.Name()))
+		if err != nil {
+			return err
+		}
+	}
 
 	return nil
 }
